@@ -5,6 +5,7 @@ import SymfcModel.Model.Inst
 import SymfcModel.Model.Coset
 import SymfcModel.Lemmas.Chunk
 import SymfcModel.Lemmas.LinAlg
+import SymfcModel.Lemmas.Coset
 namespace Symfc.C02
 open Symfc
 
@@ -23,6 +24,40 @@ theorem chunked_coset_sum_is_the_plain_sum {α} (add : α → α → α) (zero :
     (hzero : ∀ a, add zero a = a) (nCosets : Nat) (hn : 1 ≤ nCosets) (mats : List α) :
     chunkedSum add zero nCosets mats = mats.foldl add zero :=
   chunkedSum_eq_foldl add zero hassoc hcomm hzero nCosets hn mats
+
+/-- C02.d: the action of atom permutations on atom tuples is a homomorphism (`sigma n (g∘h) = sigma n g ∘ sigma n h`) -/
+theorem tuple_representation_is_a_homomorphism (N n : Nat) (g h gh : Array Nat)
+    (hh : ∀ a, a < N → h.getD a 0 < N) (hgh : ∀ a, a < N → gh.getD a 0 = g.getD (h.getD a 0) 0)
+    (t : Nat) (ht : t < N ^ n) :
+    (sigmaRep N n gh none).getD t 0 = (sigmaRep N n g none).getD ((sigmaRep N n h none).getD t 0) 0 :=
+  Coset.sigmaRep_comp N n g h gh hh hgh t ht
+
+/-- C02.a: an atom permutation `g` that normalises the lattice translations maps translation classes to translation
+    classes, injectively: the class of `g·t` depends exactly on the class of `t`. -/
+theorem operation_acts_on_classes (c : Cell) (hwf : c.wf = true) (n : Nat) (hn : 1 ≤ n) (g : Array Nat)
+    (hg : Coset.Normalises c g) (t t' : List Nat) (htl : t.length = n) (ht : ∀ x, x ∈ t → x < c.N)
+    (htl' : t'.length = n) (ht' : ∀ x, x ∈ t' → x < c.N) :
+    (c.atomicDecompr n).getD (flat c.N (t.map (fun a => g.getD a 0))) 0
+      = (c.atomicDecompr n).getD (flat c.N (t'.map (fun a => g.getD a 0))) 0 ↔
+    (c.atomicDecompr n).getD (flat c.N t) 0 = (c.atomicDecompr n).getD (flat c.N t') 0 :=
+  Coset.class_map_iff c hwf n hn g hg t t' htl ht htl' ht'
+
+/-- C02.a (fast variant, no cutoff): the integer matrix built for one operation has, for EVERY class exactly once as
+    column, the class of its image as row: it IS the permutation matrix that `g` induces on classes. -/
+theorem fast_coset_matrix_is_the_induced_permutation (c : Cell) (hwf : c.wf = true) (n : Nat) (hn : 1 ≤ n)
+    (g : Array Nat) (hg : Coset.Normalises c g) (t : List Nat) (htl : t.length = n) (ht : ∀ x, x ∈ t → x < c.N) :
+    ((cosetPairs c n g true none).map Prod.snd).Perm (List.range (c.indepAtoms.length * c.N ^ (n - 1))) ∧
+    (cosetPairs c n g true none).count
+        ((c.atomicDecompr n).getD (flat c.N (t.map (fun a => g.getD a 0))) 0,
+          (c.atomicDecompr n).getD (flat c.N t) 0) = 1 :=
+  ⟨Coset.cosetPairs_fast_snd_perm c hwf n hn g, Coset.cosetPairs_fast_count c hwf n hn g hg t htl ht⟩
+
+/-- C02.a / C11.d: the reference (`_stable`) variant lists every entry exactly `n_lp` times as often as the fast one —
+    which is exactly compensated by its extra factor 1/n_lp (`coset_mask_matches_factor`): both are the same matrix. -/
+theorem stable_variant_is_nlp_times_the_fast_one (c : Cell) (hwf : c.wf = true) (n : Nat) (hn : 1 ≤ n)
+    (g : Array Nat) (hg : Coset.Normalises c g) (r v : Nat) :
+    (cosetPairs c n g false none).count (r, v) = c.nlp * (cosetPairs c n g true none).count (r, v) :=
+  Coset.cosetPairs_stable_eq_nlp_mul_fast c hwf n hn g hg r v
 
 section L3
 open Matrix
